@@ -281,6 +281,12 @@ class CContext:
         fmt = self.ctypes_names[tid]
         # Check format with arch options:
         assert self.sizeof(typ) == struct.calcsize(fmt)
+        if isinstance(value, int) and fmt[-1] not in "fd":
+            # Convert the value to the destination type:
+            bits = struct.calcsize(fmt) * 8
+            value &= (1 << bits) - 1
+            if fmt[-1].islower() and value >> (bits - 1):
+                value -= 1 << bits
         return struct.pack(fmt, value)
 
     def _make_ival(self, typ, ival):
